@@ -31,6 +31,8 @@ K_ALIAS = "open/alias-into-foreign-loop-stack-overflow"
 K_REPR = "buildcode/repr-like-name-gets-affix-on-namespace"
 K_INDEX = "buildcode/qualified-INDEX-without-affixes"
 K_DOTNS = "include/null-namespace-tag-then-nested-namespace"
+K_API_RENAME = "api/alter-affixes-fragment-namespace-rename-only-entry-names"
+K_API_STALE = "api/alias-chain-stale-after-forward-target-added"
 
 
 # ------------------------------------------------------------------ trees
@@ -126,6 +128,35 @@ class Writer:
     def __init__(self, root, rng):
         self.root, self.rng, self.n, self.files = root, rng, 0, {}
 
+    def child(self, l, reldir):
+        """write the fragment included by line l (and everything below it); returns the path to
+        put into /INCLUDE (relative to reldir, ./-decorated, through .., or absolute)"""
+        self.n += 1
+        cname = "inc%d.fmt" % self.n
+        cdir = os.path.join(reldir, *l[1]) if l[1] else reldir
+        os.makedirs(os.path.join(self.root, cdir), exist_ok=True)
+        sub = "/".join(l[1] + [cname])
+        r = self.rng.random()
+        if r < 0.12:
+            path = os.path.join(os.path.realpath(self.root), cdir, cname)   # absolute
+        elif r < 0.2:
+            path = "./" + sub
+        elif r < 0.27 and l[1]:
+            path = l[1][0] + "/../" + sub
+        else:
+            path = sub
+        self.write(l[4], cdir, cname)
+        return path
+
+    def data_files(self, l, reldir):
+        if l[0] == "FR" and l[1] and "/" not in l[1]:
+            with open(os.path.join(self.root, reldir, l[1]), "wb") as fh:
+                fh.write(DATA)
+        elif l[0] == "FL":
+            tp = os.path.join(self.root, reldir, l[3])
+            os.makedirs(os.path.dirname(tp), exist_ok=True)
+            open(tp, "w").write("0 0\n1 1\n")
+
     def write(self, lines, reldir, fname):
         out = []
         for l in lines:
@@ -148,40 +179,22 @@ class Writer:
                 out.append("/HIDDEN %s" % tok(l[1]))
             elif k == "FR":
                 out.append("%s RAW %s 1" % (tok(l[1]), "c" if l[2] else "UINT16"))
-                if l[1] and "/" not in l[1]:
-                    with open(os.path.join(self.root, reldir, l[1]), "wb") as fh:
-                        fh.write(DATA)
+                self.data_files(l, reldir)
             elif k == "FL":
                 out.append("%s LINTERP %s %s" % (tok(l[1]), tok(l[2]), l[3]))
-                tp = os.path.join(self.root, reldir, l[3])
-                os.makedirs(os.path.dirname(tp), exist_ok=True)
-                open(tp, "w").write("0 0\n1 1\n")
+                self.data_files(l, reldir)
             elif k == "FB":
                 out.append("%s BIT %s 0" % (tok(l[1]), tok(l[2])))
             elif k == "A":
                 out.append("/ALIAS %s %s" % (tok(l[1]), tok(l[2])))
             elif k == "I":
-                self.n += 1
-                cname = "inc%d.fmt" % self.n
-                cdir = os.path.join(reldir, *l[1]) if l[1] else reldir
-                os.makedirs(os.path.join(self.root, cdir), exist_ok=True)
-                sub = "/".join(l[1] + [cname])
-                r = self.rng.random()
-                if r < 0.12:
-                    path = os.path.join(os.path.realpath(self.root), cdir, cname)   # absolute
-                elif r < 0.2:
-                    path = "./" + sub
-                elif r < 0.27 and l[1]:
-                    path = l[1][0] + "/../" + sub
-                else:
-                    path = sub
+                path = self.child(l, reldir)
                 s = "/INCLUDE %s" % path
                 if l[2] != "" or l[3] != "":
                     s += " " + tok(l[2])
                 if l[3] != "":
                     s += " " + l[3]
                 out.append(s)
-                self.write(l[4], cdir, cname)
         txt = "\n".join(out) + "\n"
         with open(os.path.join(self.root, reldir, fname), "w") as fh:
             fh.write(txt)
@@ -208,6 +221,7 @@ class Gen:
         self.budget = 60
         self.ver = None
         self.used_special = set()
+        self.api = False      # trees for the API correspondence: no /VERSION, no legacy types, no /NAMESPACE in the root
 
     def fresh(self):
         self.k += 1
@@ -250,7 +264,9 @@ class Gen:
             lines.append(("V", v))
             self.ver = v
 
-        if P == "versions" and rng.random() < 0.55:
+        if self.api:
+            pass
+        elif P == "versions" and rng.random() < 0.55:
             version(rng.choice([5, 6, 6, 7, 7, 8, 8, 8, 9, 9, 10, 10] + ([] if clean else [4, 11])))
         elif P == "modern" and rng.random() < (0.4 if depth == 0 else 0.12):
             version(rng.choice([10, 10, 10, 10] if clean else [10, 10, 10, 9]))
@@ -275,7 +291,7 @@ class Gen:
                     legacy = (self.ver is None or self.ver < 8) and rng.random() < (0.3 if P == "versions" else 0.05)
                 else:
                     legacy = rng.random() < (0.3 if P == "versions" else 0.03)
-                lines.append(("FR", nm, legacy))
+                lines.append(("FR", nm, legacy and not self.api))
                 defs.append((nm, cur, "R"))
             elif r < 0.36:                                      # BIT
                 nm = self.fresh()
@@ -361,6 +377,8 @@ class Gen:
             elif r < 0.81:                                      # namespace switch
                 if clean and not (self.ver is None or self.ver >= 10):
                     continue
+                if self.api and depth == 0:
+                    continue
                 if P == "versions" and rng.random() < 0.6:
                     continue
                 good = ["n1", "n2", "n1.n2", "", ".", "n3.", ".n4"]
@@ -382,6 +400,8 @@ class Gen:
                 else:
                     lines.append(("R", "nosuch"))
             elif r < 0.88 or (P == "versions" and r < 0.93):    # version switch
+                if self.api:
+                    continue
                 if P == "modern" and clean:
                     version(10)
                 elif clean:
@@ -441,6 +461,96 @@ class Gen:
 
     def tree(self):
         return self.fragment(0)
+
+
+def count_frags(lines):
+    return sum(1 + count_frags(l[4]) for l in lines if l[0] == "I")
+
+
+def api_case(rng, d, maxdepth):
+    """an include tree whose root fragment is built through the API.  Returns (script text, the
+    tree the result must equal when parsed: /VERSION 10 + the root lines as executed, with the
+    inclusion changed by gd_alter_affixes / gd_fragment_namespace written into its /INCLUDE)"""
+    g = Gen(rng, "modern", maxdepth, True)
+    g.api = True
+    g.budget = rng.choice([25, 40, 60])
+    t = g.tree()
+    prots = [l for l in t if l[0] == "P"]
+    root = [("E", 1)] + [l for l in t if l[0] not in ("P", "E", "V", "S")]
+    # a data protection level before an inclusion is inherited; RAW fields cannot be added below it
+    incs = [i for i, l in enumerate(root) if l[0] == "I"]
+    if incs and rng.random() < 0.4:
+        k = rng.choice(incs)
+        if not any(l[0] == "FR" for l in root[k:]):
+            root.insert(k, ("P", 2))
+    root = [(("O", str(rng.randint(0, 40))) if l[0] == "O" else l) for l in root]
+    root += prots[-1:]
+    os.makedirs(d)
+    w = Writer(d, rng)
+    sc = ["NEW\t%s" % d]
+    strip = lambda x: x[1:] if x.startswith(".") else x
+    for l in root:
+        k = l[0]
+        if k == "FR":
+            w.data_files(l, "")
+            sc.append("SPEC\t0\t%s RAW UINT16 1" % l[1])
+        elif k == "FB":
+            sc.append("SPEC\t0\t%s BIT %s 0" % (l[1], l[2]))
+        elif k == "FL":
+            w.data_files(l, "")
+            sc.append("SPEC\t0\t%s LINTERP %s %s" % (l[1], l[2], l[3]))
+        elif k == "A":
+            if "/" in l[1]:
+                par, ch = l[1].split("/", 1)
+                sc.append("MALIAS\t%s\t%s\t%s" % (strip(par), ch, strip(l[2])))
+            else:
+                sc.append("ALIAS\t%s\t%s\t0" % (strip(l[1]), strip(l[2])))
+        elif k == "H":
+            sc.append("HIDE\t%s" % strip(l[1]))
+        elif k == "R":
+            sc.append("REF\t%s" % strip(l[1]))
+        elif k == "E":
+            sc.append("ENC\t%d\t0" % l[1])
+        elif k == "N":
+            sc.append("END\t%d\t0" % (1 if l[1] else 0))
+        elif k == "O":
+            sc.append("OFF\t%s\t0" % l[1])
+        elif k == "P":
+            sc.append("PROT\t%d\t0" % l[1])
+        elif k == "I":
+            path = w.child(l, "")
+            if l[3] == "" and l[2].endswith(".") and not l[2].startswith(".") and rng.random() < 0.6:
+                sc.append("INCNS\t%s\t%s\t0" % (path, l[2][:-1]))
+            else:
+                sc.append("INC\t%s\t%s\t%s\t0" % (path, l[2] or "-", l[3] or "-"))
+    # change one top-level inclusion afterwards
+    incs = [i for i, l in enumerate(root) if l[0] == "I"]
+    final = list(root)
+    if incs and rng.random() < 0.6 and not any(l[0] == "P" and l[1] in (1, 3) for l in root):
+        k = rng.choice(incs)
+        l = root[k]
+        idx = 1 + count_frags(root[:k])
+        tokn = l[2]
+        if not (tokn.startswith(".") and tokn.count(".") == 1):      # null namespace tag: recorded finding
+            t0 = tokn[1:] if tokn.startswith(".") else tokn
+            ns, px = (t0.rsplit(".", 1) if "." in t0 else ("", t0))
+            sx = l[3]
+            if rng.random() < 0.65:
+                pa = rng.choice(["-", "", "Z", "M.Z", "M.", "M.N.Z"])
+                sa = rng.choice(["-", "", "W", "W"])
+                sc.append("AFFIX\t%d\t%s\t%s" % (idx, pa, sa))
+                if pa != "-":
+                    if "." in pa:
+                        ns, px = pa.rsplit(".", 1)
+                    else:
+                        px = pa
+                if sa != "-":
+                    sx = sa
+            else:
+                ns = rng.choice(["M2", "M2.N2", "A"])
+                sc.append("NS\t%d\t%s" % (idx, ns))
+            final[k] = ("I", l[1], (ns + "." if ns else "") + px, sx, l[4])
+    return "\n".join(sc) + "\n", [("V", 10)] + final, w.files
 
 
 def deep_chain(rng, depth):
@@ -575,6 +685,16 @@ def main():
         w = Writer(d, rng)
         w.write(t, "", "format")
         dirs.append(d); filesets.append(w.files)
+    # trees whose root fragment is built through the API
+    napi = 1200 if not chk.thorough else 8000
+    for i in range(napi):
+        d = os.path.join(root, "a%05d" % i)
+        script, t, files = api_case(rng, d, rng.choice([1, 2, 2, 3]))
+        sp = d + ".script"
+        open(sp, "w").write(script)
+        files = dict(files); files["<api script>"] = script
+        post = any(l.startswith(("AFFIX\t", "NS\t")) for l in script.split("\n"))
+        trees.append(t); tags.append("api-post" if post else "api"); dirs.append("@" + sp); filesets.append(files)
     rc1, out1 = vlib.sh([exe], inp=("\n".join(dirs) + "\n").encode(), timeout=1500)
     rc2, out2 = vlib.sh([drv], inp=("\n".join(ser_tree(t) for t in trees) + "\n").encode(), timeout=3000)
     IB = parse_blocks(out1)
@@ -605,6 +725,21 @@ def main():
                          "echo '<tree>' | ocaml/C09/driver"}
         if i < 3 or (i % 500 == 7):
             chk.sample({"generator": tags[i], "tree": ser_tree(t)[:300], "impl": ci[:300]})
+        if tags[i] == "api-post" and cs != "UNSPEC" and ci != cs:
+            # gd_alter_affixes / gd_fragment_namespace rename the entry names only (recorded finding)
+            chk.violation(K_API_RENAME, "after the API script of tree %s the dirfile is %s; parsing the equivalent format files (interp_spec) gives %s" % (
+                ser_tree(t)[:200], ci[:400], cs[:400]), dict(replay, kind="impl-vs-spec", attr=attr), found=True)
+            confirmed.add(K_API_RENAME)
+            stat["deviations"] += 1
+            continue
+        if tags[i] == "api" and cs != "UNSPEC" and ci != cs and cm == cs:
+            strip = lambda c: "\n".join(ln.split(" res=")[0] if ln.startswith("E ") and " kind=A " in ln else ln for ln in c.split("\n"))
+            if strip(ci) == strip(cs):
+                chk.violation(K_API_STALE, "after the API script of tree %s an alias chain is dangling although its target exists: %s; the Standards give %s" % (
+                    ser_tree(t)[:200], ci[:400], cs[:400]), dict(replay, kind="impl-vs-spec", attr=attr), found=True)
+                confirmed.add(K_API_STALE)
+                stat["deviations"] += 1
+                continue
         if ci != cm:
             if cs != "UNSPEC" and ci != cs and attr.get("dotns") == "1":
                 # names with a leading dot are inserted into D->entry at the position of the name
@@ -632,14 +767,8 @@ def main():
         # the code (and its model) deviate from the Standards on this tree: attribute
         stat["deviations"] += 1
         keys = []
-        if attr.get("vprot") == "1":
-            keys = [K_PROT]
-        elif attr.get("vns") == "1":
-            keys = [K_NS]
-        elif attr.get("valias") == "1":
-            keys = [K_ALIAS]
-        elif attr.get("vall") == "1":
-            keys = [K_PROT, K_NS, K_ALIAS]
+        if attr.get("vnullns") == "1":
+            keys = [K_DOTNS]
         else:
             if attr.get("repr") == "1":
                 keys.append(K_REPR)
